@@ -739,6 +739,10 @@ func redactScalarValue(keyPath []string, v interface{}, isSearchStage bool, isSe
 		if str, ok := v.(string); ok && grandParentKey == "$binary" {
 			return redactString(str, RedactedUUID)
 		}
+	case "subType":
+		if grandParentKey == "$binary" {
+			return v // BSON binary subtype, not user data (also inside search stages)
+		}
 	}
 	switch v.(type) {
 	case string:
